@@ -392,6 +392,9 @@ func (g *Gen) conforms(o *Occ) {
 			// delegated to the user's hooks (C17)
 		}
 	}
+	for _, inj := range o.Injected {
+		w(`{ _, has := tf.Attrs[%q]; vrt.Assert(lab+"/%s:injected-attribute-untouched", !has) }`, inj.Name, inj.Name)
+	}
 	g.p("func conforms_%s(tf types.Object, lab string) {\n%s}\n", o.ID, b.String())
 	for _, s := range o.Slots {
 		if s.Sub != nil {
@@ -461,11 +464,14 @@ func (g *Gen) nullIffZero(o *Occ) {
 		case SScalar:
 			switch {
 			case s.Leaf.Ptr && s.EmbedPtr == "":
-				w(`{ v, _ := tf.Attrs[%q].(%s); vrt.Assert("C20/"+path+"/%s:null-iff-nil", v.Null == (%s == nil)) }`, n, g.tfv(s.Leaf.TFVal), n, x)
+				w(`{ v, _ := tf.Attrs[%q].(%s); vrt.Assert("C20/"+path+"/%s:null-iff-nil", v.Null == (%s == nil))`, n, g.tfv(s.Leaf.TFVal), n, x)
+				w(`  if %s != nil && !v.Null { vrt.Assert("C02/"+path+"/%s:attribute-carries-its-field", %s) } }`, x, n, tfLeafEq(s.Leaf, "v.Value", toTF(s.Leaf, "*"+x)))
 			case s.Leaf.Ptr:
 				w(`{ v, _ := tf.Attrs[%q].(%s); vrt.Assert("C20/"+path+"/%s:null-iff-nil", v.Null == (%s%s == nil)) }`, n, g.tfv(s.Leaf.TFVal), n, embOr, x)
 			case s.Leaf.HasZero:
-				w(`{ v, _ := tf.Attrs[%q].(%s); vrt.Assert("C20/"+path+"/%s:null-iff-zero", v.Null == (%s%s)) }`, n, g.tfv(s.Leaf.TFVal), n, embOr, zeroExpr(s.Leaf, x))
+				w(`{ v, _ := tf.Attrs[%q].(%s); vrt.Assert("C20/"+path+"/%s:null-iff-zero", v.Null == (%s%s))`, n, g.tfv(s.Leaf.TFVal), n, embOr, zeroExpr(s.Leaf, x))
+				// C02: the attribute named after this field carries this field's value
+				w(`  if %s!v.Null { vrt.Assert("C02/"+path+"/%s:attribute-carries-its-field", %s) } }`, emb, n, tfLeafEq(s.Leaf, "v.Value", toTF(s.Leaf, x)))
 			case s.EmbedPtr == "":
 				// time and duration held by value: excluded from zero-is-null, always rendered
 				w(`{ v, _ := tf.Attrs[%q].(%s); vrt.Assert("C20/"+path+"/%s:by-value-time-duration-rendered", !v.Null) }`, n, g.tfv(s.Leaf.TFVal), n)
